@@ -193,6 +193,10 @@ def build(seed, tier, sites, cfg, n_value, g, sweep=False):
     plan['act_flag'] = kernel.stream(seed, 'actmode').random() < (0.1 if sweep else 0.2)
     # the case may be marked as expected to fail: a timeout is an error all the same (and a run without one is XPASS)
     plan['status_fail'] = kernel.stream(seed, 'status').random() < 0.15
+    # how the text is spread over files is no business of the timeout: a section may start by including a file
+    fg = kernel.stream(seed, 'first-include')
+    if fg.random() < 0.3:
+        plan['first_include'] = [ph for ph in PHASES if fg.random() < 0.5]
     _behaviours(plan)
     return plan
 
@@ -270,6 +274,9 @@ def render(plan):
         if ph == 'act':
             lines.extend(plan['act'])
             continue
+        if ph in (plan.get('first_include') or []):
+            # the section starts by including a file (a definition nobody uses); everything else follows the directive
+            lines.append('including ' + casegen.first_include_file(ph)[0])
         if ph == 'setup':
             lines.append('file g.txt = "g"')
             lines.append('dir gd')
@@ -472,6 +479,9 @@ def _execute_here(plan, scratch):
     text = render(plan)
     w.write('home/t.case', text)
     w.populate(plan.get('files', {}))
+    for ph in plan.get('first_include') or []:
+        name, body = casegen.first_include_file(ph)
+        w.write('home/' + name, body)
     sim = kernel.Sim(plan, w)
     suite_mode = in_suite_mode(plan)
     if suite_mode:
